@@ -336,17 +336,30 @@ pub fn take_result() -> PipeResult {
 /// runner -> writer boundary.
 pub fn expected_verdict(cfg: &Config, tr: &Trace, fail_on_skipped: bool) -> (bool, String) {
     let infos = cfg.scen_infos();
+    // the last attempt of every scenario that appears in the stream
+    let mut last_attempt: std::collections::BTreeMap<&str, usize> = std::collections::BTreeMap::new();
+    for te in &tr.events {
+        if let Ev::Sc { s, retries, .. } = &te.ev {
+            let cur = retries.map_or(0, |r| r.0);
+            let e = last_attempt.entry(s.as_str()).or_insert(cur);
+            *e = (*e).max(cur);
+        }
+    }
     for te in &tr.events {
         match &te.ev {
             Ev::ParseErr(e) => return (true, format!("parser error {e}")),
             Ev::Sc { s, retries, ev, .. } => {
-                let last = retries.is_none_or(|(_, left)| left == 0);
+                // "failed finally": no retry left according to the counter, or — whatever
+                // the counter says — no later attempt of this scenario ever happened
+                let cur = retries.map_or(0, |r| r.0);
+                let last = retries.is_none_or(|(_, left)| left == 0)
+                    || last_attempt.get(s.as_str()) == Some(&cur);
                 match ev {
                     ScEv::Step(_, t, _, StepEv::Failed(..)) if last => {
-                        return (true, format!("step '{t}' of {s} failed finally"));
+                        return (true, format!("step '{t}' of {s} failed in its last attempt"));
                     }
                     ScEv::Hook(k, HookEv::Failed(..)) if last => {
-                        return (true, format!("{k:?} hook of {s} failed finally"));
+                        return (true, format!("{k:?} hook of {s} failed in its last attempt"));
                     }
                     ScEv::Step(_, t, _, StepEv::Skipped) if fail_on_skipped => {
                         let allowed = infos
